@@ -6,6 +6,7 @@ import (
 	"runtime"
 	"sync"
 	"sync/atomic"
+	"time"
 
 	"github.com/weedbox/pokerface/verifshim/vrt"
 
@@ -19,9 +20,11 @@ type node struct {
 
 // Explorer runs the regulator BFS for one setting and one property.
 type Explorer struct {
-	Prop string
-	Rep  *explore.Report
-	S    Setting
+	Prop     string
+	Rep      *explore.Report
+	S        Setting
+	Deadline time.Time
+	capped   bool
 
 	bfs      *explore.BFS[*node]
 	execs    int64
@@ -69,7 +72,7 @@ func (e *Explorer) check(hist []Step, w *World, res Result) bool {
 }
 
 func (e *Explorer) Run() {
-	b := &explore.BFS[*node]{MaxStates: 4000000, KeyOf: func(n *node) explore.Key { return explore.HashKey([]byte(n.key)) }}
+	b := &explore.BFS[*node]{MaxStates: 4000000, Deadline: e.Deadline, KeyOf: func(n *node) explore.Key { return explore.HashKey([]byte(n.key)) }}
 	e.bfs = b
 	w0 := NewWorld(e.S)
 	init := &node{key: w0.Key()}
@@ -118,7 +121,8 @@ func (e *Explorer) Run() {
 	e.Rep.Add("refusals_observed", e.refusals)
 	e.Rep.Max("max_depth", int64(b.MaxDepth))
 	if b.Capped != "" {
-		e.Rep.Cap(fmt.Sprintf("%s in setting %d/%d %s (states=%d)", b.Capped, e.S.Max, e.S.Min, e.S.Mode, b.States))
+		e.capped = true
+		e.Rep.Cap(fmt.Sprintf("%s in setting %d/%d %s (states=%d, completed depth=%d)", b.Capped, e.S.Max, e.S.Min, e.S.Mode, b.States, b.MaxDepth))
 	}
 }
 
